@@ -13,7 +13,7 @@ import re
 import warnings
 
 from harness import gen_expr as G
-from harness.common import ImplWorker, Model, Report, rng_for, sx_scope, sx_str, unbin
+from harness.common import ImplWorker, Model, Report, rng_for, sx_scope, sx_str, unbin, depth
 
 warnings.simplefilter("ignore")
 import numpy as np  # noqa: E402
@@ -195,8 +195,8 @@ def all_small_asts(max_size: int):
 
 def run(tier: str, seed: int, rep: Report, model: Model) -> dict:
     rnd = rng_for("C05", seed)
-    n_random = 3000 if tier == "quick" else 40000
-    n_front = 400 if tier == "quick" else 3000
+    n_random = depth(tier, 3000, 40000)
+    n_front = depth(tier, 400, 3000)
     n_scopes = 3 if tier == "quick" else 5
     parser = fast_path()
     rep.rule = (
